@@ -285,6 +285,52 @@ def divisor_nonzero(div, facts, func):
     return None, 'divisor expression outside the modelled subset'
 
 
+def division_in_range(n, facts, func):
+    """Signed integer division overflows (undefined behaviour, SIGFPE on x86) for MIN / -1.  Proved
+    impossible when the divisor cannot be -1 (literal, tested positive, unsigned before conversion)
+    or the dividend cannot be the minimum (literal, unsigned and narrower before conversion, tested
+    non-negative).  -> (proved?, reason)"""
+    t = (n.get('type') or '')
+    if 'unsigned' in t or t in ('size_t', 'uint64_t', 'uint32_t', 'std::size_t', 'unsigned long', 'unsigned long long',
+                                'uint8_t', 'uint16_t', 'unsigned int', 'std::vector::size_type') or 'size_type' in t:
+        return True, 'unsigned division'
+    a, b = children(n)
+    lb = literal_value(b)
+    if isinstance(lb, (int, float)) and not isinstance(lb, bool):
+        return (lb != -1), 'literal divisor %s' % lb
+
+    def pre_cast_type(e):
+        x = strip(e) if e.get('kind') == 'ParenExpr' else e
+        while isinstance(x, dict) and x.get('kind') in ('CXXStaticCastExpr', 'CStyleCastExpr', 'CXXFunctionalCastExpr',
+                                                          'ImplicitCastExpr', 'ParenExpr') and children(x):
+            x = children(x)[0]
+        return (x.get('type') or '')
+    tb = pre_cast_type(b)
+    if 'unsigned' in tb or 'size_t' in tb or 'size_type' in tb or 'uint' in tb:
+        return True, 'the divisor is unsigned before conversion'
+    pb = guards.canon(b)
+    if pb:
+        for f in facts:
+            if isinstance(f, tuple) and f[1] == pb and ((f[2] == '>' and f[3].lstrip('-').isdigit() and int(f[3]) >= -1) or
+                                                         (f[2] == '>=' and f[3].lstrip('-').isdigit() and int(f[3]) >= 0)):
+                return True, 'divisor tested greater than -1'
+    la = literal_value(a)
+    if isinstance(la, (int, float)) and not isinstance(la, bool):
+        return True, 'literal dividend'
+    ta = pre_cast_type(a)
+    narrow = ('int' == ta.strip() or 'int32_t' in ta or 'uint32_t' in ta or 'unsigned int' in ta or 'short' in ta
+              or 'uint8_t' in ta or 'uint16_t' in ta or 'char' in ta or 'bool' in ta)
+    wide_result = 'long' in t or 'int64' in t
+    if narrow and wide_result:
+        return True, 'the dividend is a %s before conversion and cannot be the minimum of %s' % (ta.strip(), t)
+    pa = guards.canon(a)
+    if pa:
+        for f in facts:
+            if isinstance(f, tuple) and f[1] == pa and f[2] in ('>', '>=') and f[3].lstrip('-').isdigit() and int(f[3]) >= -1:
+                return True, 'dividend tested non-negative'
+    return False, 'neither is the divisor shown to differ from -1 nor the dividend from the minimum of %s' % t
+
+
 def run(tier='quick'):
     prog = program.load()
     cg = callgraph.get(prog)
@@ -302,7 +348,7 @@ def run(tier='quick'):
     U5 = chk.rule('U5', 'a local aggregate declared without initialiser (T x;) whose record has scalar members '
                         'lacking default member initialisers has every such member assigned on every path '
                         'before the object is used as a whole (passed, returned, copied, encoded)', floor=3)
-    U6 = chk.rule('U6', 'every integer / and % has a divisor proved non-zero after any conversion to integer', floor=15)
+    U6 = chk.rule('U6', 'every integer / and % has a divisor proved non-zero after any conversion to integer, and a signed one cannot be MIN / -1', floor=15)
     U7 = chk.rule('U7', 'every throw expression throws a type derived from std::exception and no noexcept '
                         'function contains a throw', floor=150)
     U8 = chk.rule('U8', 'id(), copy construction, assignment and destruction of track / crate / database reach '
@@ -454,6 +500,15 @@ def run(tier='quick'):
                 chk.violation(U6, '%s|%s' % (_short(func.qualname), (guards.canon(children(n)[1]) or '?').split(':')[-1]),
                               locstr(n), '%s divides by a value not proved non-zero: %s (integer division by zero '
                               'is undefined behaviour)' % (_short(func.qualname), why))
+            ok2, why2 = division_in_range(n, facts, func)
+            inst2 = '%s: %s cannot overflow (%s)' % (_short(func.qualname), n.get('opcode'), why2)
+            if ok2:
+                chk.ok(U6, inst2, locstr(n))
+            else:
+                chk.violation(U6, '%s|%s MIN over -1' % (_short(func.qualname),
+                                                         (guards.canon(children(n)[1]) or '?').split(':')[-1]),
+                              locstr(n), '%s: signed division whose quotient can leave its type: %s (MIN / -1 is '
+                              'undefined behaviour and traps)' % (_short(func.qualname), why2))
             return
         if k == 'CXXOperatorCallExpr' or (k == 'BinaryOperator' and n.get('opcode') == '-'):
             # iterator arithmetic: it - 1
